@@ -843,7 +843,20 @@ def run(ck):
         ck.violation("C12/translator/symmetry_tables", "translator no longer recognises the source: %s" % e,
                      {"kind": "translator", "error": str(e)}, found_input=False)
         t = None
-    if t is not None:
+        # keep searching with the last known-good tables (translator/fallback/SymmetryTables.v, regenerated from the
+        # unchanged tree by hand, never at run time): the model-based streams below then still compare the
+        # implementation with the model of the ORIGINAL source and report a concrete input if the behaviour changed
+        fb = VERIF / "translator" / "fallback" / "SymmetryTables.v"
+        if fb.exists():
+            g = ck.write_gen("SymmetryTables", fb.read_text())
+            from harness.lib import ensure_theories, theory_targets
+            ensure_theories(theory_targets([fb.read_text()]))
+            rc, out, _ = ck.coqc(g)
+            if rc != 0:
+                raise RuntimeError("fallback table does not compile: %s" % out[-500:])
+            ck.notes["tables"] = "fallback (translator refused the current source)"
+            t = "fallback"
+    if t is not None and t != "fallback":
         res = ck.prove()
         if not res.ok:
             ck.proof_violation(res)
